@@ -85,10 +85,12 @@ def run(chk: Check, drv: Driver):
                             chk.violation("operands of different dimensions not refused with ValueError", case, got=str(out[:2]))
                         continue
                     if out[0] == "exc":
-                        if out[1] != "NoKernelFoundError":
-                            chk.violation(f"operator raised {out[1]}: {out[2]}", case)
-                        else:
+                        if out[1] == "NoKernelFoundError":
                             chk.count("no_kernel")
+                        elif out[1] == "NotImplementedError" and f3_known(chk, drv, captured, {"left": (lm, lo), "right": (rm, ro)}):
+                            chk.count("f3_internal_error")
+                        else:
+                            chk.violation(f"operator raised {out[1]}: {out[2]}", case)
                         continue
                     res = out[1]
                     exp = {c: op_fn(op)(lv.get(c, 0.0), rv.get(c, 0.0)) for c in itertools.product(*[range(d) for d in dims])}
@@ -193,6 +195,29 @@ def run(chk: Check, drv: Driver):
             mism += 1
             chk.unproved_obligation("correspondence:operator-synthesis", f"model {sx(rep)} vs code captured={cap} status={status} {exc}", case)
     chk.corr("operator-synthesis", len(meta) + len(mm_meta), mism)
+
+
+def f3_known(chk, drv, captured, operand_formats):
+    """NotImplementedError is known (F3) only if the model of the unchanged compiler predicts it for the
+    synthesised problem"""
+    from .. import graphcorr, kruns
+    from ..gen import parse_fmt
+
+    if not captured:
+        return False
+    text, out_fmt = captured[-1]
+    fm = {"output": parse_fmt(out_fmt)}
+    fm.update(operand_formats)
+    pr = kruns.Prepared(text, fm)
+    if pr.problem is None:
+        return False
+    if graphcorr.model_outcomes(drv, [pr]).get(pr.key()) != ("graph", False):
+        return False
+    f = chk.match_known(lambda f: f.get("signature", {}).get("kind") == "exception-site" and f["signature"].get("type") == "NotImplementedError")
+    if f:
+        chk.known(f["id"], f["what"])
+        return True
+    return False
 
 
 def _apply(a, b, op):
